@@ -49,7 +49,7 @@ func (c *OCSPRevocationChecker) IsRevoked(clientCertificate *x509.Certificate, v
 	if err != nil {
 		return nil, err
 	}
-	certCandidates, err := core.FindCertificateIssuerCandidates(issuer, &clientCertificate.Extensions, clientCertificate.PublicKeyAlgorithm, chains)
+	certCandidates, err := core.FindCertificateIssuerCandidates(issuer, &clientCertificate.Extensions, issuerPublicKeyAlgorithm(clientCertificate), chains)
 	ocspServerList := c.filterHTTPOCSPServers(clientCertificate.OCSPServer)
 	var output []byte = nil
 	for _, ocspServer := range ocspServerList {
@@ -95,6 +95,23 @@ func (c *OCSPRevocationChecker) IsRevoked(clientCertificate *x509.Certificate, v
 		}, nil
 	}
 
+}
+
+// issuerPublicKeyAlgorithm returns the algorithm of the key which signed the certificate, this is the key algorithm
+// of the issuer certificate (it is not necessarily the algorithm of the certificate's own key)
+func issuerPublicKeyAlgorithm(certificate *x509.Certificate) x509.PublicKeyAlgorithm {
+	switch certificate.SignatureAlgorithm {
+	case x509.MD2WithRSA, x509.MD5WithRSA, x509.SHA1WithRSA, x509.SHA256WithRSA, x509.SHA384WithRSA, x509.SHA512WithRSA,
+		x509.SHA256WithRSAPSS, x509.SHA384WithRSAPSS, x509.SHA512WithRSAPSS:
+		return x509.RSA
+	case x509.ECDSAWithSHA1, x509.ECDSAWithSHA256, x509.ECDSAWithSHA384, x509.ECDSAWithSHA512:
+		return x509.ECDSA
+	case x509.DSAWithSHA1, x509.DSAWithSHA256:
+		return x509.DSA
+	case x509.PureEd25519:
+		return x509.Ed25519
+	}
+	return certificate.PublicKeyAlgorithm
 }
 
 func (c *OCSPRevocationChecker) calculateEvictionTime(response *ocsp.Response) time.Duration {
